@@ -114,4 +114,4 @@ package stcp
 //@   loop 1
 //@     invariant s != nil && s.ln != nil && s.ch != nil && cnf != nil && acceptMax == cnf.maxConn && cnf.acceptDelay < 2305843009213693952 && cnf.acceptMaxDelay < 2305843009213693952 && cnf.acceptMaxRetry < 2305843009213693952
 //@     invariant #backoff 0 <= accRetryCount && accRetryCount <= max(0, cnf.acceptMaxRetry) && accDelay <= max(0, max(cnf.acceptDelay, cnf.acceptMaxDelay))
-//@     invariant #closedorhanded connCloses + handedOver >= old(connCloses) + old(handedOver)
+//@     invariant #closedorhanded connCloses + handedOver - netAccepted == old(connCloses) + old(handedOver) - old(netAccepted)
